@@ -55,8 +55,16 @@ def rettok(r):
     return tok({"claimed": r["claimed"], "outs": sorted(r["outs"]), "trunc": r["trunc"], "why": r["why"]})
 
 
+_LINES = {}
+
+
 def step_line(e):
-    return "expand %s %s = %s %s" % (ENVTOK[e["args"][0]], tok(e["args"][1]), rettok(e["ret"]), tok(e["post"]))
+    """Script line of an edge (memoised: every edge is rendered once per pass and once per script it prefixes)."""
+    k = id(e)
+    v = _LINES.get(k)
+    if v is None or v[0] is not e:
+        v = _LINES[k] = (e, "expand %s %s = %s %s" % (ENVTOK[e["args"][0]], tok(e["args"][1]), rettok(e["ret"]), tok(e["post"])))
+    return v[1]
 
 
 def text_of(codes):
